@@ -103,13 +103,16 @@ def _branch_cached(p):
     return _orig_branch(p)
 
 
+_TACTIC = [None]  # set in mods(): z3.Then("simplify", "solve-eqs", "smt") halves the time of this check's queries
+
+
 def _fresh_query(self, extra, timeout_ms=None):
     """same contract as Ctx.query; a fresh solver per query instead of push/pop on the incremental one (the queries of this
     check — wide uninterpreted-function arguments — are 5-8 times faster through z3's non-incremental pipeline)"""
     import time
     import z3
     t = time.time()
-    s = z3.Solver()
+    s = _TACTIC[0].solver() if _TACTIC[0] is not None else z3.Solver()
     s.set("timeout", timeout_ms or self.timeout_ms)
     s.add(self.solver.assertions())
     s.add(*self.pc)
@@ -137,6 +140,7 @@ def der_wf(b):
 class _State:
     hash_calls = []
     conc_hashes = {}
+    nohash = []
     tw_calls = []
     nsig = 0
     inj = True
@@ -244,6 +248,9 @@ class KeyStub:
                 assume_nq(wrapb(b_or(b_not(b_cmp("eq", x, x2)), b_and(b_cmp("eq", px, px2), b_cmp("eq", t, t2)))))
         if all(x is not c[2] for c in ST.tw_calls):
             ST.tw_calls.append((px, t, x))
+            # a script key fixed before the output exists is not a tweaked output key (which commits to the script)
+            for v in ST.nohash:
+                assume_nq(wrapb(b_not(b_cmp("eq", x, v))))
         return KeyStub(SBytes([wrap(n_byte(x, 31 - i)) for i in range(32)]), parity=wrap(p))
 
     def even_point(self):
@@ -276,12 +283,15 @@ class KeyStub:
 
     @classmethod
     def parse_sec(cls, sec_bin):
-        if len(sec_bin) == 65:
-            if sec_bin[0] != 4:
-                raise ValueError("x out of field range")
-            return cls(sec_bin)
+        # the real checks: 04 <=> 65 bytes, otherwise 33 bytes with prefix 02 / 03 (curve membership is not modelled)
         if sec_bin[0] == 4:
-            raise ValueError("invalid literal for int() with base 16: ''")
+            if len(sec_bin) != 65:
+                raise ValueError("SEC length does not match its prefix")
+            return cls(sec_bin)
+        if len(sec_bin) != 33:
+            raise ValueError("SEC length does not match its prefix")
+        if not s_or(sec_bin[0] == 2, sec_bin[0] == 3):  # one condition: no fork on which of the two it is
+            raise ValueError("Unknown SEC prefix")
         return cls(sec_bin)
 
     @classmethod
@@ -340,6 +350,9 @@ def _uf_bytes_inj(name, outlen, parts):
         else:
             conds.append(b_not(b_cmp("eq", node, n2)))
     ST.hash_calls.append((fname, node))
+    if name == "sha256":
+        for v in ST.nohash:
+            conds.append(b_not(b_cmp("eq", node, v)))
     for (algo, d), rr in ST.conc_hashes.items():
         c = _conc_link(algo, d, rr, fname, node)
         if c is not None:
@@ -399,6 +412,8 @@ def mods():
         shims._H.digest = _digest_linked
         core.branch = _branch_cached
         core.Ctx.query = _fresh_query
+        import z3
+        _TACTIC[0] = z3.Then("simplify", "solve-eqs", "smt")
         M.ready = True
     return M
 
@@ -406,6 +421,7 @@ def mods():
 def reset_path():
     ST.hash_calls = []
     ST.conc_hashes = {}
+    ST.nohash = []
     ST.tw_calls = []
     ST.nsig = 0
     ST.inj = True
@@ -511,6 +527,8 @@ def sym_tmpl(name, m, n, pfx="k"):
     if name in TAPROOT_T:
         encs = [SBytes.sym(f"{pfx}{i}", 32) for i in range(n)]
         internal = KeyStub(SBytes.sym(f"{pfx}.internal", 32))
+        # a script key is not the SHA-256 image of data occurring in the spend (keys are fixed before the spend exists)
+        ST.nohash += [_node(e) for e in encs]
     else:
         encs = []
         for i in range(n):
@@ -752,7 +770,7 @@ def attack_path(tmpl, m, n, ss, wit, n_in=1, idx=0):
 def ob_attack(tmpl, m, n, shapes, n_in=1, idx=0):
     runs = []
     for (ss, wit) in shapes:
-        runs.append(sym_run(lambda: attack_path(tmpl, m, n, ss, wit, n_in, idx), timeout_ms=60000, max_violations=2))
+        runs.append(sym_run(lambda: attack_path(tmpl, m, n, ss, wit, n_in, idx), timeout_ms=60000, max_violations=1))
     r = merge_runs(runs)
     r["sample"] = {"template": tmpl, "m": m, "n": n, "shapes": len(shapes), "example": {"scriptsig": shapes[0][0], "witness": shapes[0][1]},
                    "items": "symbolic bytes of the stated lengths; op = symbolic opcode from OP_0/OP_1/OP_NOP/OP_DROP/OP_DUP"}
@@ -790,6 +808,17 @@ class RealTmpl(Tmpl):
             self.signers = self.privs
 
 
+_REAL_T = {}
+
+
+def real_tmpl(name, m, n, tag):
+    import copy
+    k = (name, m, n, tag)
+    if k not in _REAL_T:
+        _REAL_T[k] = RealTmpl(name, m, n, tag)
+    return copy.copy(_REAL_T[k])
+
+
 def real_valid_e(key, z, der):
     md = native_mods()
     try:
@@ -819,8 +848,9 @@ def rebuild(w):
     """concrete spend from a witness: real keys, real scripts; items the model calls Valid for script key k become real
     signatures by k over the real reference digest; other well-formed signature-shaped items become real signatures by a key
     outside the script (well formed, invalid); everything else is kept byte for byte"""
-    t = RealTmpl(w["template"], w["m"], w["n"], "script")
-    ft = RealTmpl(w["template"], w["m"], w["n"], "foreign")
+    t = real_tmpl(w["template"], w["m"], w["n"], "script")
+    ft = real_tmpl(w["template"], w["m"], w["n"], "foreign") if any(
+        d["k"].startswith("f") for d in list(w["scriptsig"]) + list(w["witness"])) else None
     outsider = real_priv("outsider", 0)
     f = dict(w["tx"])
     f["prev"] = bytes.fromhex(f["prev"])
@@ -1022,6 +1052,8 @@ def honest_path(tmpl, m, n, signers, commit=None, n_in=1, idx=0):
         hx = SBytes.sym("hx", len(good))
         assume_nq(core.sbytes(hx) != good)
         t.spk = wrong_commitment(t, commit, hx)
+        if t.schnorr:
+            outpriv.others.append(hx)  # the other output key is another key: the signer's signature is not valid for it
     tx = build_tx(t.md, t.spk, [], [], n_in, idx, f)
     try:
         ok = bool(honest_spend(t, tx, idx, privs, signers, outpriv))
@@ -1058,7 +1090,7 @@ def ob_honest(tmpl, m, n, cases, commit=None):
 
 
 def replay_honest(w):
-    t = RealTmpl(w["template"], w["m"], w["n"], "script")
+    t = real_tmpl(w["template"], w["m"], w["n"], "script")
     f = dict(w["tx"])
     f["prev"] = bytes.fromhex(f["prev"])
     signers = tuple(w["signers"])
@@ -1100,7 +1132,7 @@ def _j(*parts):
 SK_DATA = ["", "p0", "p1", "p33", "p72", "p72,p33", "p71,p33", "p33,p72", "p72,p72", "p33,p33", "p1,p33", "p0,p33", "p72,p1",
            "p72,p65", "p1,p72,p33", "p72,p33,p1", "p0,p0,p33", "s72,p72,p33", "p2,p2,s72,p33"]
 SK_OPS = ["op", "op,p33", "p72,op", "p72,p33,op", "op,p72,p33", "p72,op,p33", "s72,p33,op,op"]
-SS_JUNK = ["p0", "p1", "p2", "op", "p33", "p72", "p1,p1", "op,op", "p0,op"]
+SS_JUNK = ["p0", "p1", "op", "p33", "p1,p1", "op,op"]
 
 
 def ms_shapes(m, n, R, ops):
@@ -1167,7 +1199,8 @@ def attack_shapes(tmpl, m, n, tier):
 def signer_cases(tmpl, m, n):
     if tmpl in ("p2pkh", "p2wpkh", "p2sh-p2wpkh"):
         return [(0,), ()]
-    cases = [c for r in range(0, n + 1) for c in itertools.combinations(range(n), r)]
+    # tapscript k-of-n (CHECKSIGADD ... k EQUAL) is satisfied by exactly k signatures: larger signer sets are not "the required keys"
+    cases = [c for r in range(0, (m if tmpl == "p2tr-csa" else n) + 1) for c in itertools.combinations(range(n), r)]
     if m >= 2:
         cases.append((0, 0))
     if tmpl == "p2tr-checksig":
@@ -1189,7 +1222,7 @@ def obligations(tier):
            Ob("O0-der-lemma", ob_der_lemma, {"lengths": (12, 13) if q else (13, 14)}, replay="der", budget_s=1500)]
     for (tmpl, m, n) in (QUICK_T if q else THOROUGH_T):
         shapes = attack_shapes(tmpl, m, n, tier)
-        chunk = 6
+        chunk = 12
         for i in range(0, len(shapes), chunk):
             obs.append(Ob("O1-attack", ob_attack, {"tmpl": tmpl, "m": m, "n": n, "shapes": tuple(shapes[i:i + chunk])}, replay="attack",
                           budget_s=280 if q else 2400))
